@@ -175,7 +175,7 @@ func ParseContractFile(path string) (*ContractFile, error) {
 			}
 		case strings.HasPrefix(text, "assume "):
 			d.Kind, d.Expr = "assume", strings.TrimPrefix(text, "assume ")
-		case text == "nopanic" || text == "nowrap" || text == "opaque" || text == "pure" || text == "trusted":
+		case text == "nopanic" || text == "nowrap" || text == "opaque" || text == "pure" || text == "trusted" || text == "stepwise":
 			d.Kind = text
 		case strings.HasPrefix(text, "mode "):
 			d.Kind, d.Arg = "mode", strings.TrimSpace(strings.TrimPrefix(text, "mode "))
